@@ -282,6 +282,9 @@ func (te *tableEngine) StartTableGame() error {
 }
 
 func (te *tableEngine) UpdateBlind(level int, ante, dealer, sb, bb int64) {
+	te.lock.Lock()
+	defer te.lock.Unlock()
+
 	te.table.State.BlindState.Level = level
 	te.table.State.BlindState.Ante = ante
 	te.table.State.BlindState.Dealer = dealer
